@@ -149,10 +149,21 @@ def build(spec: dict):
             # (seeded changes C03-3 / C10-1: the provider multiplied the weight into the caller's buffer)
             own_buffer = (arr.shape[0] + arr.shape[1]) % 2 == 0
             da = xr.DataArray(np.ascontiguousarray(arr.T) if own_buffer else arr.T, coords=coords, dims=("global", "model"))
+        if ds.get("dtype") not in (None, "float64"):
+            # data as read from a file of counts / single precision floats: only when every value is representable
+            # (the spec's numbers stay the exact data the model sees)
+            cast = da.values.astype(ds["dtype"])
+            if np.array_equal(cast.astype(np.float64), da.values):
+                da = da.copy(data=cast)
         dset = da.to_dataset(name="data")
         if ds.get("weight") is not None:
             w = np.array(ds["weight"], dtype=np.float64)
-            dset["weight"] = (da.dims, w if ds.get("dims_order", "mg") == "mg" else np.ascontiguousarray(w.T))
+            w_mg = ds.get("dims_order", "mg") == "mg"
+            if ds.get("weight_dims") == "swapped":
+                # the weight variable stored in the other dimension order than the data variable (valid xarray input)
+                dset["weight"] = (da.dims[::-1], np.ascontiguousarray(w.T) if w_mg else w)
+            else:
+                dset["weight"] = (da.dims, w if w_mg else np.ascontiguousarray(w.T))
         data[ds["label"]] = dset
     scheme = Scheme(
         model=model, parameters=parameters, data=data,
